@@ -77,6 +77,17 @@ func Fixed() []Chunk {
 		{{CTry{Body: Chunk{bi("defer", ELam{Sig{Rest: -1}, Chunk{put(s("d"))}})}, HasCatch: true, CatchVar: 0, CatchDecl: true, Catch: Chunk{put(s("caught"), v(0))}, Else: chunkp(Chunk{put(s("else"))})}}},
 		{{CTry{Body: Chunk{bi("fail", s("x"))}, CatchVar: -1, Fin: chunkp(Chunk{bi("defer", ELam{Sig{Rest: -1}, Chunk{put(s("d"))}})})}}, put(s("after"))},
 		{{CCall{Head: ELam{Sig{Rest: -1}, Chunk{bi("defer", ELam{Sig{Rest: -1}, Chunk{bi("fail", s("a"))}}), bi("defer", ELam{Sig{Rest: -1}, Chunk{put(s("b"))}}), put(s("c"))}}}}, put(s("after"))},
+		// loops with else: the else block runs only if the body never ran, also when the
+		// last iteration ended by break / continue
+		{varDecl(0, s("0")), {CWhile{Cond: cap1(CBuiltin{B: "<", Args: []Expr{v(0), s("2")}}),
+			Body: Chunk{{CSet{Lvs: []LValue{{X: 0}}, Rhs: []Expr{cap1(CBuiltin{B: "+", Args: []Expr{v(0), s("1")}})}}}, put(v(0)), bi("continue")},
+			Else: chunkp(Chunk{put(s("else"))})}}, put(s("end"))},
+		{varDecl(0, s("0")), {CWhile{Cond: cap1(CBuiltin{B: "<", Args: []Expr{v(0), s("2")}}),
+			Body: Chunk{{CSet{Lvs: []LValue{{X: 0}}, Rhs: []Expr{cap1(CBuiltin{B: "+", Args: []Expr{v(0), s("1")}})}}}, put(v(0)), bi("break")},
+			Else: chunkp(Chunk{put(s("else"))})}}, put(s("end"))},
+		{{CFor{Decl: true, X: 0, E: list(s("a"), s("b")), Body: Chunk{put(v(0)), bi("break")}, Else: chunkp(Chunk{put(s("else"))})}},
+			{CFor{Decl: false, X: 0, E: list(), Body: Chunk{put(v(0))}, Else: chunkp(Chunk{put(s("else"), v(0))})}}},
+		{{CWhile{Cond: v(ConstFalse), Body: Chunk{put(s("body"))}, Else: chunkp(Chunk{put(s("else"))})}}},
 		// pipeline with two failing stages
 		{{CCall{Head: ELam{Sig{Rest: -1}, Chunk{put(s("1")), bi("fail", s("a"))}}}, CBuiltin{B: "each", Args: []Expr{ELam{Sig{Args: []int{OptBase}, Rest: -1}, Chunk{put(v(OptBase)), bi("fail", s("b"))}}}}}},
 	}
